@@ -30,7 +30,7 @@ GRIDS_T = GRIDS_Q + [(3, 4)]
 GRIDS_M = [((4, 4), 40000, 200000), ((5, 5), 40000, 200000), ((3, 6), 30000, 120000), ((6, 3), 30000, 120000), ((1, 6), 2000, 10000),
            ((7, 2), 8000, 80000), ((8, 8), 4000, 60000), ((12, 12), 0, 20000)]
 Z_MAX = 7.0
-THRESHOLDS = {"quick": {"c19:draws": 300000, "c19:marginal-draws": 150000, "c19:trace:draws": 500,
+THRESHOLDS = {"quick": {"c19:draws": 300000, "c19:marginal-draws": 150000, "c19:trace:draws": 500, "c19:trace:draws-with-injected-bouncing-prefix?c19:trace:held": 100,
                         "c19:consumed-stream-blocks": 10}}
 THRESHOLDS["thorough"] = {**THRESHOLDS["quick"], "c19:draws": 3000000}
 ANCHORS = ["maze_dataset.generation.generators:LatticeMazeGenerators.gen_wilson",
@@ -172,18 +172,31 @@ def _trace(ctx, n_per_shard):
         ctx.tally("c19:trace:not-observed", n_per_shard)
         ctx.note("trace layer not applicable: generators.get_neighbors_in_bounds does not exist")
         return
-    state = dict(on=False)
+    state = dict(on=False, bounce=0, prev=None, cur=None, nbs=None)
 
     def w_choice(a, *args, **kw):
         r = real_choice(a, *args, **kw)
         if state["on"]:
+            # hostile but legal random outcomes ("for every seed of the underlying RNG"): for the first `bounce` steps of a draw
+            # the step goes straight back to the cell the walk just came from, whenever that is one of the candidates - a long
+            # run of two-cell loops that are all erased.  By the Markov property what follows is still Wilson's algorithm from
+            # scratch, so every such draw must replay in the loop-erased-walk model like any other.
+            if state["bounce"] > 0 and isinstance(a, (int, np.integer)) and not args and not kw and state["nbs"] is not None \
+                    and int(a) == len(state["nbs"]) and state["prev"] in state["nbs"]:
+                r = type(r)(state["nbs"].index(state["prev"])) if np.ndim(r) == 0 else r
+                state["bounce"] -= 1
+                state["injected"] = state.get("injected", 0) + 1
+            if isinstance(a, (int, np.integer)) and state["nbs"] is not None and int(a) == len(state["nbs"]) and np.ndim(r) == 0:
+                state["prev"] = state["cur"]
             events.append(("choice", a if isinstance(a, (int, np.integer)) else "array", bool(args or kw), int(r) if np.ndim(r) == 0 else None))
         return r
 
     def w_nb(coord, grid_shape):
         r = real_nb(coord, grid_shape)
         if state["on"]:
-            events.append(("neigh", tuple(int(x) for x in coord), [tuple(int(x) for x in c) for c in r]))
+            state["cur"] = tuple(int(x) for x in coord)
+            state["nbs"] = [tuple(int(x) for x in c) for c in r]
+            events.append(("neigh", state["cur"], list(state["nbs"])))
         return r
 
     def w_start(grid_shape, start_coord=None, *a, **kw):
@@ -204,6 +217,7 @@ def _trace(ctx, n_per_shard):
                 continue
             np.random.seed(int(rng.integers(1 << 32)))
             events.clear()
+            state.update(bounce=(0 if t % 3 else int([20, 60, 150, 400, 1200][(t // 3) % 5])), prev=None, cur=None, nbs=None, injected=0)
             state["on"] = True
             maze = None
             try:
@@ -215,6 +229,9 @@ def _trace(ctx, n_per_shard):
                 DEAD.add((R, C))
                 continue
             ctx.tally("c19:trace:draws")
+            if state.get("injected"):
+                ctx.tally("c19:trace:draws-with-injected-bouncing-prefix")
+                ctx.tally("c19:trace:injected-decisions", state["injected"])
             _replay(ctx, list(events), maze.connection_list, R, C, dict(shape=(R, C), t=t, shard=ctx.shard))
     finally:
         np.random.choice = real_choice
